@@ -1685,7 +1685,8 @@ SPECS = [
          error_classes=("ValueError", "Exception"),
          errors={"Response header too long": "\"headerTooLong\"", "Response body exceeds maximum size": "\"tooBig\""},
          world_ops={"self._set_error": dict(fn="Cl.setError", ret=None, error_arg=True), "self.transport.close": dict(fn="Cl.closeTransport", ret=None),
-                    "self._parse_header": dict(fn="Cl.parseHeader", ret=None)}),
+                    "self._parse_header": dict(fn="Cl.parseHeader", ret=None),
+                    "self._deliver_header_only": dict(fn="Cl.deliverHeader", ret=None)}),
     dict(name="titanClientDataReceived", file="client/protocol.py", cls="TitanClientProtocol", func="data_received", mode="except", state="s", thread="s",
          implicit_return=True, header="def titanClientDataReceived (env : Cl.Env) (s : Cl.CSt) (data : List Nat) : Cl.CSt × Except Unit Unit :=",
          ret_type="Cl.CSt × Except Unit Unit",
@@ -1699,7 +1700,8 @@ SPECS = [
          error_classes=("ValueError", "Exception"),
          errors={"Response header too long": "\"headerTooLong\"", "Response body exceeds maximum size": "\"tooBig\""},
          world_ops={"self._set_error": dict(fn="Cl.setError", ret=None, error_arg=True), "self.transport.close": dict(fn="Cl.closeTransport", ret=None),
-                    "self._parse_header": dict(fn="Cl.parseHeader", ret=None)}),
+                    "self._parse_header": dict(fn="Cl.parseHeader", ret=None),
+                    "self._deliver_header_only": dict(fn="Cl.deliverHeader", ret=None)}),
     dict(name="handleGeminiRequest", file="server/protocol.py", cls="GeminiServerProtocol", func="_handle_gemini_request", state="s", thread="s", implicit_return=True,
          header="def handleGeminiRequest (E : Srv.DispEnv) (s : Srv.PState) (url : List Char) : Srv.PState × Unit :=", state_type="Srv.PState",
          try_except=True, decode_utf8="-", raising_calls={"GeminiRequest.from_line": ("E.geminiFromLine", "ValueError", "obj")},
